@@ -5,7 +5,7 @@
    The theorems below say what acceptance by the monitor guarantees.  The vocabulary of the monitor
    (create / append-write / fsync / unlink) has no truncate, rename, positional write or re-open for
    writing: the recorder reports those separately and any occurrence is a violation. *)
-From BC Require Import Store.Engine Store.Trace.
+From BC Require Import Store.Engine Store.Trace Store.Theorems Store.Discipline.
 Open Scope N_scope.
 
 (* 1. Every data file is created under a name that does not exist, with an id greater than every id
@@ -40,6 +40,18 @@ Theorem C14_max_id_monotone : forall maxsize tr m m', disc_run maxsize m tr = So
 Proof. exact disc_run_max. Qed.
 Print Assumptions C14_max_id_monotone.
 
+(* 5. THE property for the model: the monitor accepts the whole trace of a process that opens an empty
+      directory and then runs ANY ready script of sets, gets, deletes, reopens and merges — so by 1-4
+      every data file the store ever creates has a fresh id above all earlier ones, every write goes
+      to the data file created last or its hint file, and no data file is extended beyond the maximum
+      size.  (Store/Discipline.v: a monitor over the byte-level file system of Store/Crash.v is run
+      forward along the trace of each operation — through the merge loop, the unlinks and the
+      rollovers — and is simulated by the list-based monitor.) *)
+Theorem C14_model_traces_accepted : forall c ops, run_ready c init ops ->
+  disc_ok (c_max c) (mon_init []) (SCreate (FData 0) :: snd (run c init ops)) = true.
+Proof. exact model_traces_accepted. Qed.
+Print Assumptions C14_model_traces_accepted.
+
 (* Non-vacuity: the model's own trace of a script with rollovers, a merge and a reopen is accepted;
    a trace that reuses an id, or writes to the older file after a rollover, is rejected. *)
 Example C14_model_trace_accepted :
@@ -54,6 +66,5 @@ Example C14_write_to_older_rejected :
   disc_ok 60 (mon_init []) [SCreate (FData 0); SWrite (FData 0) [1]; SCreate (FData 1); SWrite (FData 0) [2]] = false.
 Proof. vm_compute. reflexivity. Qed.
 
-(* Still to be proved: that every trace of every ready script of the model is accepted
-   (C14_model_traces_ok).  For now each run of `bin/check C14` evaluates the monitor on the model
-   trace and on the recorded real trace of every generated script. *)
+(* Each run of `bin/check C14` additionally evaluates the monitor on the recorded REAL trace of every
+   generated script and compares that trace call by call with the model's. *)
